@@ -47,6 +47,11 @@ def _table(f, construct, node=None):
     for (suffix, c, l), reason in R1_TABLE.items():
         if m.endswith(suffix) and c == construct and (l is None or l == lit):
             return reason
+    # a prefix / suffix / separator literal with a character that no user axis name can contain (names match
+    # [a-zA-Z_][a-zA-Z0-9_]*, C08.R2): the test tells einx's own generated names (`unnamed.<uuid>`, `cse.<n>`,
+    # `<name>.<index>`) from user names and cannot depend on how the user spelled an axis
+    if construct in ("startswith", "endswith", "removeprefix", "removesuffix", "split", "rsplit", "partition") and isinstance(lit, str) and re.search(r"[^a-zA-Z0-9_]", lit):
+        return f"`{construct}({lit!r})`: the literal contains a character that cannot occur in a user axis name; it only recognises names einx generated itself"
     return None
 
 
